@@ -73,7 +73,7 @@ def check(R, tier):
     I = R.interp('tough'); install_world(I)
     nch = 3 if tier == 'thorough' else 2
     R.bounds.update({'transport chunks': f'0..{nch} of any length, an error at any position, or an endless tail after them', 'signed length / digest': 'any'})
-    R.assumptions += ['Sha-256 is a function of the sequence of bytes pulled (cryptographic hash trusted)', 'Targets::find_target is C07; expiry prologue is C04 (enforcement off here)',
+    R.assumptions += ['Sha-256 is a function of the sequence of bytes pulled (cryptographic hash trusted)', 'Targets::find_target is an oracle inside read_target and is checked on its own below (C07 harness, shapes flat-2 and nested); expiry prologue is C04 (enforcement off here)',
                       'an endless transport stream is modelled as a tail chunk of 2^63 bytes after the provisioned chunks; single chunks < 2^60 bytes, signed length < 2^62 bytes in the endless runs (byte counts that wrap u64 are outside the claim)']
     P = rt_params(); P['lkt_present'] = z3.BoolVal(False); P['safe'] = z3.BoolVal(False); P['join_fails'] = z3.BoolVal(False)
     P['chunks'] = sym_chunks('t', nch); P['cons'] = z3.Bool('consistent'); P['fetch_err'] = z3.Bool('t_fetch_err')
@@ -149,6 +149,17 @@ def check(R, tier):
         R.reach_any(f'{label}: stream ends without error after delivering data', [s.pc for s in done if isinstance(s.result, Obj) and s.result.d.get('how') == 'end' and any(e[0] == 'item' and e[1] == 'ok' for e in s.events)])
         R.reach_any(f'{label}: stream ends in HashMismatch', [s.pc for s in done if isinstance(s.result, Obj) and s.result.d.get('how') == 'err'])
         R.samples.append({'endless': endless, 'paths': len(done)})
+    # which entry is "the signed content" of a name: the one Targets::find_target designates (pre-order, own entry first, pruned by the delegated
+    # paths).  read_target above takes it from an oracle; the designation itself is C07's harness, run here on two shapes so that this check
+    # does not rest on an unverified lookup
+    import props.C07 as C07
+    saved = list(I.models); I.models[:0] = C07.models_for(I)
+    try:
+        C07.find_target_obligations(R, I, [('flat-2', False), ('nested', False)])
+    except (AttributeError, KeyError, TypeError, IndexError) as e:
+        R.inconclusive.append('find_target part stopped on a code shape the harness cannot read: ' + repr(e)[:200])
+    finally:
+        I.models[:] = saved
     native_validation(R)
     finalize(R)
 
@@ -161,6 +172,11 @@ def native_validation(R):
 def finalize(R):
     for d in getattr(R, 'native_dev', [])[:2]:
         R.report_violation('read_target: ' + d['what'], d)
+    if not R.violations and any(c['group'] in ('preorder-pruned', 'matches-resolved-name', 'not-found-justified') for c in R.counterexamples):
+        res = R.replay('delegated_paths', {}, timeout=600)         # the replay of find_target counterexamples (C07's sweep)
+        R.differential['scenarios'] += res['cases']; R.differential['agree'] += res['cases'] - len(res['deviations'])
+        for d in res['deviations'][:2]:
+            R.report_violation('read_target serves the entry of the wrong role: ' + d['what'], {'op': 'delegated_paths', 'what': d['what']})
     if not R.violations:
         for cx in R.counterexamples[:4]:
             R.inconclusive.append(f'counterexample for "{cx["obligation"]}" did not show up in the native target-stream sweep: {str(cx.get("scenario") or cx.get("model"))[:300]}')
